@@ -156,3 +156,15 @@ Lemma label_checks :
     text_eqb (T "Note") (T "Unknown Field: " ++ tag) = false /\
     text_eqb (T "Notes") (T "Unknown Field: " ++ tag) = false.
 Proof. intros tag. vm_compute. repeat split; reflexivity. Qed.
+
+(* @keyword is the tag (the only one) bound to handle_keyword; @param / @arg are bound to handle_param *)
+Lemma keyword_rows : forallb (fun e : text * handler => Bool.eqb (tag_is ["keyword"%string] (fst e)) (handler_eqb (snd e) HKeyword))
+                             handler_table = true.
+Proof. vm_compute. reflexivity. Qed.
+
+Lemma keyword_handler_fact : forall tag h, lookup_handler tag handler_table = Some h ->
+  tag_is ["keyword"%string] tag = handler_eqb h HKeyword.
+Proof.
+  intros tag h H. apply lookup_handler_In in H. pose proof keyword_rows as K. rewrite forallb_forall in K.
+  specialize (K _ H). cbn [fst snd] in K. apply eqb_prop. exact K.
+Qed.
